@@ -14,6 +14,9 @@ import tempfile
 import time
 
 VERIF = os.path.dirname(os.path.dirname(os.path.abspath(__file__)))
+# the tree under test; always /repo for registered commands.  DYNVERIF_REPO is a development aid used only by
+# tools/seeds_matrix.sh to run the checks against scratch worktrees carrying a seeded defect.
+REPO = os.environ.get("DYNVERIF_REPO", "/repo").rstrip("/")
 PY = os.path.join(VERIF, ".venv", "bin", "python")
 ANCHOR_GLOB = ["dynetx/classes/dyngraph.py", "dynetx/classes/dyndigraph.py", "dynetx/classes/function.py",
                "dynetx/readwrite/edgelist.py", "dynetx/readwrite/json_graph/node_link.py",
@@ -24,7 +27,7 @@ CONTRACT_RE = re.compile(r"^\s*(pre|post|inv|raises)\s*:", re.M)
 
 def env(native=False):
     e = dict(os.environ)
-    e["PYTHONPATH"] = "/repo" + os.pathsep + VERIF
+    e["PYTHONPATH"] = REPO + os.pathsep + VERIF
     e["PYTHONDONTWRITEBYTECODE"] = "1"
     e["PYTHONHASHSEED"] = "0"
     e.pop("DYNVERIF_NATIVE", None)
@@ -63,7 +66,7 @@ def contract_scan():
     """No helper, model, oracle or library function may carry a PEP316 contract (DESIGN section 2)."""
     import ast
     bad = []
-    roots = [os.path.join(VERIF, "dynverif"), "/repo/dynetx"]
+    roots = [os.path.join(VERIF, "dynverif"), REPO + "/dynetx"]
     for root in roots:
         for dp, dn, fns in os.walk(root):
             for fn in fns:
@@ -96,7 +99,7 @@ def contract_scan():
 def sha_sources():
     out = {}
     for rel in ANCHOR_GLOB:
-        p = os.path.join("/repo", rel)
+        p = os.path.join(REPO, rel)
         if os.path.exists(p):
             out[rel] = hashlib.sha256(open(p, "rb").read()).hexdigest()[:16]
     return out
@@ -122,7 +125,7 @@ def main(argv=None):
     seed = int(os.environ.get("VERIF_SEED", "0") or 0)
     t_start = time.time()
 
-    sys.path.insert(0, "/repo")
+    sys.path.insert(0, REPO)
     os.environ["PYTHONDONTWRITEBYTECODE"] = "1"
     sys.dont_write_bytecode = True
 
@@ -145,7 +148,7 @@ def main(argv=None):
               (prop, "".join(traceback.format_exception_only(type(ex), ex)).strip()))
         # if the failure comes from the code under test itself, say where
         tb = traceback.extract_tb(ex.__traceback__)
-        repo_frames = [f for f in tb if f.filename.startswith("/repo/")]
+        repo_frames = [f for f in tb if f.filename.startswith(REPO + "/")]
         if repo_frames:
             f = repo_frames[-1]
             print("  raised in %s:%d (%s) during the harness warm-up on a concrete graph" % (f.filename, f.lineno, f.name))
